@@ -35,8 +35,13 @@ for i in sorted(os.listdir(hd)) if os.path.isdir(hd) else []:
     m = json.load(open(mp)); r = json.load(open(rp)) if os.path.exists(rp) else {"class": "not run", "wall_s": 0}
     hrows.append("| %s | %s | %s | %s (%ss) |" % (i, m["property"], (m.get("summary") or "").replace("|", "/").replace("\n", " ")[:230], r["class"], r["wall_s"]))
 harmless = "| Id | Property | Refactor | `./check <property>` |\n|---|---|---|---|\n" + "\n".join(hrows)
+hcls = {}
+for i in sorted(os.listdir(hd)) if os.path.isdir(hd) else []:
+    rp = os.path.join(hd, i, "result.json")
+    if os.path.exists(rp):
+        c = json.load(open(rp))["class"]; hcls[c] = hcls.get(c, 0) + 1
 static = open(os.path.join(here, "design10_static.md")).read()
-s += static.format(rows=rows, fixed=fixed, ptab=ptab, nthm=nthm, loc_all=loc_all, loc_props=loc_props, loc_model=loc_model, loc_gen=loc_gen, seeded=seeded, harmless=harmless,
+s += static.format(rows=rows, fixed=fixed, ptab=ptab, nthm=nthm, loc_all=loc_all, loc_props=loc_props, loc_model=loc_model, loc_gen=loc_gen, seeded=seeded, harmless=harmless, hOK=hcls.get('OK', 0), hTIE=hcls.get('TIE', 0), hFA=hcls.get('FALSE-ALARM', 0), hINFRA=hcls.get('INFRA', 0),
                    nR=cnt("R-")[0], cR=cnt("R-")[1], n1=cnt("S-")[0], c1=cnt("S-")[1], n2=cnt("S2-")[0], c2=cnt("S2-")[1], n3=cnt("S3-")[0], c3=cnt("S3-")[1],
                    n4=cnt("S4-")[0], c4=cnt("S4-")[1], n5=cnt("S5-")[0], c5=cnt("S5-")[1], n6=cnt("S6-")[0], c6=cnt("S6-")[1], n7=cnt("S7-")[0], c7=cnt("S7-")[1])
 open(p, "w").write(s)
